@@ -6,6 +6,8 @@
 extern "C" {
 #include "erasure_code.h"
 void ec_init_tables_gfni(int k, int rows, unsigned char *a, unsigned char *g_tbls);
+int gf_vect_mul_sse(int, unsigned char *, void *, void *);
+int gf_vect_mul_avx(int, unsigned char *, void *, void *);
 }
 using namespace pbt;
 
@@ -64,6 +66,26 @@ static void body_tbl(Tape &t, Ctx &c) {
 	PBT_CHECK(guard::canaries_ok(tb), "gf_table32", "gf_vect_mul_init(%u) wrote outside its 32 bytes", cst);
 	if (c.want_sample) c.sample = fmt("{\"c\":%u,\"tbl\":%s}", cst, jhex(tb.p, 32).c_str());
 	check_tbl32(tb.p, cst, "gf_vect_mul_init");
+	// "any table-driven product": the library's own consumers of this table, every byte value in both lanes positions next to varying neighbours
+	{
+		const int N = 1024;
+		guard::Buf src = guard::alloc(N, guard::END, "src", 32, 0), dst = guard::alloc(N, guard::END, "dst", 32, 0);
+		for (int x = 0; x < 256; x++) {
+			src.p[2 * x] = (uint8_t) x; src.p[2 * x + 1] = (uint8_t) (mix64(x * 131 + cst) >> 17);
+			src.p[512 + 2 * x] = (uint8_t) (mix64(x * 137 + cst) >> 23); src.p[512 + 2 * x + 1] = (uint8_t) x;
+		}
+		guard::set_readonly(src);
+		typedef int (*mfn)(int, unsigned char *, void *, void *);
+		static const struct { const char *n; mfn f; } V[] = {{"gf_vect_mul_base", (mfn) gf_vect_mul_base}, {"gf_vect_mul_sse", (mfn) gf_vect_mul_sse}, {"gf_vect_mul_avx", (mfn) gf_vect_mul_avx}, {"gf_vect_mul", (mfn) gf_vect_mul}};
+		for (auto &v : V) {
+			memset(dst.p, 0xEE, N);
+			int rc = -99;
+			f = guard::call([&] { rc = v.f(N, tb.p, src.p, dst.p); });
+			PBT_CHECK(!f.faulted && rc == 0, "gf_table_product", "%s(c=%u): %s rc=%d", v.n, cst, f.describe().c_str(), rc);
+			for (int i = 0; i < N; i++)
+				PBT_CHECK(dst.p[i] == refgf::mul_slow(cst, src.p[i]), "gf_table_product", "%s: c=%u times %u (neighbours %u,%u) gives %u, the field product is %u", v.n, cst, src.p[i], i ? src.p[i - 1] : 0, i + 1 < N ? src.p[i + 1] : 0, dst.p[i], refgf::mul_slow(cst, src.p[i]));
+		}
+	}
 	// GFNI 8-byte form
 	guard::Buf g8 = guard::alloc(8, guard::END, "gfni_tbl");
 	f = guard::call([&] { ec_init_tables_gfni(1, 1, &cst, g8.p); });
@@ -115,7 +137,7 @@ int main(int argc, char **argv) {
 	std::vector<Sub> subs = {
 		{"mul_pairs", body_mul, 2, 0, sweep_mul, "all (a,b) in [0,255]^2 (x all third operands for associativity/distributivity); non-trivial: a!=0 and b!=0"},
 		{"inv", body_inv, 1, 0, sweep_inv, "all a in [0,255]; non-trivial: a!=0"},
-		{"tables", body_tbl, 1, 0, sweep_tbl, "all constants c: 32-byte table and GFNI matrix x all 256 inputs; non-trivial: c>1"},
+		{"tables", body_tbl, 1, 0, sweep_tbl, "all constants c: 32-byte table and GFNI matrix x all 256 inputs, and the table-driven products of gf_vect_mul{_base,_sse,_avx,dispatched} over all byte values; non-trivial: c>1"},
 		{"init_tables", body_init_tables, 3, 1, nullptr, "random (k,rows,coefficients) through ec_init_tables_base and the dispatched ec_init_tables; non-trivial: >=2 coefficients"},
 	};
 	return pbt_main(argc, argv, "C12", subs);
